@@ -54,26 +54,32 @@ func New[H Hash](options ...func(config *Config[H])) (*DBFT[H], error) {
 func (d *DBFT[H]) addTransaction(tx Transaction[H]) {
 	d.Transactions[tx.Hash()] = tx
 	if d.hasAllTransactions() {
-		if d.IsPrimary() {
-			return
-		}
-		if d.Context.WatchOnly() {
-			// No response from us, but PreCommits received while some
-			// transactions were missing can (and must) be verified now.
-			d.verifyPreCommitPayloadsAgainstPreBlock()
-			return
-		}
-
-		if !d.createAndCheckBlock() {
-			return
-		}
-
-		d.verifyPreCommitPayloadsAgainstPreBlock()
-
-		d.extendTimer(2)
-		d.sendPrepareResponse()
-		d.checkPrepare()
+		d.processCollectedTransactions()
 	}
+}
+
+// processCollectedTransactions checks and answers the proposal once the last of
+// its transactions is obtained, be it from the application or from the pool.
+func (d *DBFT[H]) processCollectedTransactions() {
+	if d.IsPrimary() {
+		return
+	}
+	if d.Context.WatchOnly() {
+		// No response from us, but PreCommits received while some
+		// transactions were missing can (and must) be verified now.
+		d.verifyPreCommitPayloadsAgainstPreBlock()
+		return
+	}
+
+	if !d.createAndCheckBlock() {
+		return
+	}
+
+	d.verifyPreCommitPayloadsAgainstPreBlock()
+
+	d.extendTimer(2)
+	d.sendPrepareResponse()
+	d.checkPrepare()
 }
 
 // Start initializes dBFT instance and starts the protocol if node is primary.
